@@ -26,7 +26,8 @@ ASSUMPTIONS = [
     'pre-emption only at the yield points listed in DESIGN.md 4.2; code between two yield points is atomic',
     'joblib is replaced by a stub that reproduces FIFO dispatch, shared-memory vs copy semantics and exception propagation',
     'SQLite busy handler modelled in virtual time (5 s) on top of the real libsqlite3 opened with timeout=0',
-    'objective failures are off (a re-roll consumes the shared PRNG in schedule order)',
+    'objective failures are off (a re-roll consumes the shared PRNG in schedule order) except in the abort family, where one design '
+    'of a parallel batch propagates an exception and only schedule-independent clauses are judged',
     'float bounds and float costs (observation O1)',
 ]
 COMPONENTS = {
@@ -80,12 +81,99 @@ def _family(ind):
 
 
 def run_one(D, opts=None):
-    fam = D.weighted('cfg', 'family', (4, 1, 2))
+    fam = D.weighted('cfg', 'family', (4, 1, 2, 1))
     if fam == 1:
         return _run_store(D)
     if fam == 2:
         return _run_whole(D)
+    if fam == 3:
+        return _run_abort(D)
     return _run_batch(D)
+
+
+def _run_abort(D):
+    """a parallel batch that one design aborts (a non-transient exception, or five transient failures in a row): the caller
+    gets the exception, and every design that other workers brought to EVALUATED meanwhile still has its own costs, one
+    objective call and - with a store - its row; a later batch on the same objects is persisted as usual"""
+    from artap.individual import Individual
+    sim = W.begin_run(D)
+    ctx = core.Ctx(PID, D, sim)
+    workers = 2 + D.dec('cfg', 'workers', 3)
+    use_db = D.weighted('cfg', 'store', (1, 3)) == 1
+    w = W.World(D, sim, fail='none', precision=0, name='c07a')
+    db = None
+    if use_db:
+        db = W.fresh_db('c07a')
+        W.attach_store(w, db)
+    alg = W.dummy_algorithm(w, workers=workers)
+    nd = 3 + D.dec('cfg', ('ndes', 0), 7)
+    batch = [Individual(W.gen_vector(w, D, 'work', ('v', 0, i))) for i in range(nd)]
+    bad = D.dec('work', 'abort_at', nd)
+    kind = D.dec('work', 'abort_kind', 3)
+    w.pattern[batch[bad].id] = [('value',), ('zerodiv',), ('timeout', 'runtime', 'timeout', 'runtime', 'timeout')][kind]
+    site = 'Evaluator.evaluate_parallel'
+    ctx.sample = {'family': 'abort', 'workers': workers, 'store': 'sqlite' if use_db else 'dummy', 'designs': nd,
+                  'aborting_design': bad, 'pattern': list(w.pattern[batch[bad].id]), 'policy': sim.policy, 'stall_p': sim.stall_p}
+    try:
+        raised = None
+        with W.quiet():
+            try:
+                alg.evaluate(batch)
+            except kernel.Deadlock:
+                ctx.violation('deadlock', site, 'all workers blocked with no deadline')
+                return core.result(ctx, sim)
+            except kernel.StepCap:
+                raise
+            except Exception as e:
+                raised = e
+        sim.stat('obj_abort')
+        if raised is None:
+            ctx.violation('exception_in_worker', site, 'design %d raises %s but evaluate() returned normally'
+                          % (bad, w.pattern[batch[bad].id][-1]))
+        second = [Individual(W.gen_vector(w, D, 'work', ('v', 1, i))) for i in range(2 + D.dec('cfg', ('ndes', 1), 4))]
+        with W.quiet():
+            try:
+                alg.evaluate(second)
+            except kernel.StepCap:
+                raise
+            except Exception as e:
+                ctx.violation('exception_in_worker', site, 'a fault-free batch after the aborted one raised %r' % (e,))
+        rows = {}
+        if use_db:
+            _, rows, _ = _view_rows(db)
+        calls = {}
+        for c in w.calls:
+            if c.outcome == 'ok':
+                calls[c.obj] = calls.get(c.obj, 0) + 1
+        nev = 0
+        for label, group in (('aborted batch', batch), ('following batch', second)):
+            for k, x in enumerate(group):
+                if x.state != x.State.EVALUATED:
+                    if label == 'following batch':
+                        ctx.violation('differs_from_serial', site, 'design %d of the batch after the abort is %s' % (k, x.state))
+                    continue
+                nev += 1
+                ctx.check()
+                if list(x.costs) != w.f(x.vector) or calls.get(id(x), 0) != 1:
+                    ctx.violation('differs_from_serial', site, '%s, design %d: costs %r for vector %r (objective gives %r), %d successful calls'
+                                  % (label, k, list(x.costs), list(x.vector), w.f(x.vector), calls.get(id(x), 0)))
+                    break
+                if use_db:
+                    if x.id not in rows:
+                        ctx.violation('row_missing', 'SqliteDataStore.sync_individual', '%s: evaluated design %d (id %d) has no row'
+                                      % (label, k, x.id))
+                        break
+                    if _row_of(rows[x.id]) != _row_fields(x):
+                        ctx.violation('row_ne_final', 'SqliteDataStore.sync_individual', '%s: row of design %d (id %d) %r differs from %r'
+                                      % (label, k, x.id, _row_of(rows[x.id]), _row_fields(x)))
+                        break
+        ctx.probe('evaluated_despite_abort', sum(1 for x in batch if x.state == x.State.EVALUATED))
+        ctx.sig('abort', workers, use_db, nd, bad, kind, nev, tuple(sim.sigs[:2]))
+    finally:
+        w.problem.data_store = None
+        if db:
+            W.remove_db(db)
+    return core.result(ctx, sim)
 
 
 def _ledger(p):
